@@ -31,6 +31,7 @@ import (
 
 	"github.com/free5gc/chf/cdr/asn"
 	"github.com/free5gc/chf/cdr/cdrConvert"
+	"github.com/free5gc/chf/cdr/cdrType"
 	chf_context "github.com/free5gc/chf/internal/context"
 	"github.com/free5gc/openapi/models"
 )
@@ -148,6 +149,11 @@ func runCdrSize(line string, t []string) string {
 	chfSupis[s.supi] = true
 	req := sizeReq(s, nusage, ncont, upflen)
 	pre, chg := sessionRecordLen(s), usageLen(req)
+	// the record the session writes to before the request (fields + what OpenCDR took from outside the charging model)
+	preRec, preDump := sessionRecord(s), "-"
+	if preRec != nil {
+		preDump = recEnvOf(preRec) + "/" + dumpRecord(preRec)
+	}
 	b, _ := json.Marshal(req)
 	var w *httptest.ResponseRecorder
 	switch kind {
@@ -200,7 +206,41 @@ func runCdrSize(line string, t []string) string {
 	if len(recs) > 0 {
 		rs = strings.Join(recs, ";")
 	}
-	return fmt.Sprintf("st=%d pre=%d chg=%d cont=%d:%d:%d file=%s recs=%s", w.Code, pre, chg, recorded, len(distinct), sizeSent[s.supi], file, rs)
+	// record fields of every record (for the Lean record encoder), the request's usage as it is recorded, and whether
+	// the request made the session continue in a new record
+	var rfs []string
+	if ue, ok := chf_context.GetSelf().ChfUeFindBySupi(s.supi); ok {
+		for _, r := range ue.Records {
+			rfs = append(rfs, recEnvOf(r)+"/"+dumpRecord(r))
+		}
+	}
+	rf := "-"
+	if len(rfs) > 0 {
+		rf = strings.Join(rfs, "|")
+	}
+	split := 0
+	if postRec := sessionRecord(s); kind == "update" && preRec != nil && postRec != nil && postRec != preRec {
+		split = 1
+	}
+	rq := dumpRecord(&cdrType.CHFRecord{ChargingFunctionRecord: &cdrType.ChargingRecord{ListOfMultipleUnitUsage: cdrConvert.MultiUnitUsageToCdr(req.MultipleUnitUsage)}})
+	if i := strings.LastIndex(rq, ",u="); i >= 0 {
+		rq = rq[i+3:]
+	}
+	return fmt.Sprintf("st=%d pre=%d chg=%d cont=%d:%d:%d file=%s recs=%s split=%d prf=%s rq=%s rf=%s", w.Code, pre, chg, recorded, len(distinct), sizeSent[s.supi], file, rs,
+		split, preDump, rq, rf)
+}
+
+// the record the session currently writes to
+func sessionRecord(s *sizeSess) *cdrType.CHFRecord {
+	ue, ok := chf_context.GetSelf().ChfUeFindBySupi(s.supi)
+	if !ok {
+		return nil
+	}
+	r, ok := ue.Cdr[s.sid]
+	if !ok {
+		return nil
+	}
+	return r
 }
 
 // The CHF writes /tmp/<supi>.cdr, and several checks may run this stream at the same time: five digits of the
